@@ -17,7 +17,7 @@
     X(migsched) X(migxs) X(migrate) X(setcb)                                  \
     X(keyset) X(selfset) X(tset) X(keyget) X(selfget) X(tget)                 \
     X(xscreate) X(xsbasic) X(setrank) X(rankcheck) X(xsrevive) X(setmain)      \
-    X(ppush) X(ppushm) X(ppop) X(ppopm) X(premove) X(psize)
+    X(ppush) X(ppushm) X(ppop) X(ppopm) X(premove) X(psize) X(uself) X(pmove)
 
 enum {
 #define X(n) OP_##n,
@@ -42,6 +42,7 @@ static void check_start_stream(actor *a);
 static void notify_done(void);
 static void migr_callback(ABT_thread thread, void *cb_arg);
 static void op_addsched(actor *a, int p, int s);
+static void op_uself(actor *a);
 static void op_xscreate(actor *a, int xi, int rank, int exact, int basic);
 static void op_setrank(actor *a, int xi, int rank);
 static void op_rankcheck(actor *a, int check_num);
@@ -569,6 +570,12 @@ static void exec_op(actor *a, op_t *o)
         case OP_psize:
             op_psize(a, a0);
             break;
+        case OP_uself:
+            op_uself(a);
+            break;
+        case OP_pmove:
+            op_pmove(a, a0, a1, (int)o->a[2]);
+            break;
         case OP_xscreate:
             op_xscreate(a, a0, a1, o->a[2] != 0, 0);
             break;
@@ -650,6 +657,8 @@ static const ABT_sched_predef sp_map[] = { ABT_SCHED_DEFAULT, ABT_SCHED_BASIC,
                                            ABT_SCHED_BASIC_WAIT, ABT_SCHED_PRIO,
                                            ABT_SCHED_RANDWS };
 
+#include "ops_user.h"
+
 static void *ext_main(void *arg)
 {
     actor *a = (actor *)arg;
@@ -697,7 +706,7 @@ static void setup_pools(void)
                                        p->attached ? ABT_TRUE : ABT_FALSE, &p->h);
             CHECK_RC(rc, "ABT_pool_create_basic");
         } else {
-            generr("user pools not built yet");
+            create_user_pool(i);
         }
     }
 }
@@ -711,6 +720,8 @@ static void make_sched(vxs *x)
         int rc = ABT_sched_create_basic(sp_map[x->sched], x->npools, pools,
                                         ABT_SCHED_CONFIG_NULL, &x->sh);
         CHECK_RC(rc, "ABT_sched_create_basic");
+    } else if (x->sched == 5) {
+        make_user_sched(x, pools);
     } else {
         generr("sched kind %d not built yet", x->sched);
     }
@@ -960,7 +971,8 @@ static void run_program(void)
     }
     for (int i = 0; i < G.npool; i++)
         if (G.pool[i].h != ABT_POOL_NULL &&
-            (!G.pool[i].attached || (G.pool[i].sub >= 0 && !G.sub[G.pool[i].sub].created))) {
+            (!G.pool[i].attached ||
+             (G.pool[i].sub >= 0 && !G.sub[G.pool[i].sub].created))) {
             rc = ABT_pool_free(&G.pool[i].h);
             CHECK_RC(rc, "ABT_pool_free");
         }
@@ -973,6 +985,7 @@ static void run_program(void)
     final_unit_checks("finalize");
     if (G.nkey)
         key_final_checks();
+    user_final_checks();
 }
 
 static void run_special_mode(void)
